@@ -92,10 +92,33 @@ def check_noops(rel, what, env=None, pick=0):
             raise Violation("noop-not-identity", f"{name} returned a different object ({str(out)[:160]}) for {str(rel)[:160]} from {what}", noop=name)
 
 
-def cross_engine_requests(prog, rels, leaves, stats):
+def cross_engine_requests(prog, rels, leaves, stats, env_engines=()):
     """Binary requests whose operands live in different engines: they must raise EngineError / ColumnError (or the
     row-order-loss error), or - when backtracking or a transfer can reconcile them - return a well-formed tree."""
     built = [(n, rels[id(n)]) for n in walk(prog) if id(n) in rels]
+    # joins to the join identity of *another* engine: documented to be elided - whatever comes back must be well-formed
+    if built:
+        nb, b = built[-1]
+        for e in env_engines:
+            if e is b.engine:
+                continue
+            ident = e.make_join_identity_relation()
+            for name, call in (
+                ("identity.join(relation)", lambda: ident.join(b)),
+                ("relation.join(identity)", lambda: b.join(ident)),
+                ("identity.join(relation, backtrack=False)", lambda: ident.join(b, backtrack=False)),
+                ("relation.join(identity, transfer=True)", lambda: b.join(ident, transfer=True)),
+            ):
+                what = f"{name} with the join identity of {e} and {fmt(nb, leaves)} [{b.engine}]"
+                try:
+                    out = call()
+                except Exception as ex:
+                    if acceptable(ex):
+                        stats.c["cross-engine:identity-refused"] += 1
+                        continue
+                    raise Violation("call-raised", f"{what}: {type(ex).__name__}: {str(ex)[:200]}", sig=exc_sig(ex))
+                walk_or_raise(out, what, None)
+                stats.c["cross-engine:identity-well-formed"] += 1
     tried = 0
     for i, (na, a) in enumerate(built):
         for nb, b in built[i + 1 :]:
@@ -160,7 +183,7 @@ def run_case(case, stats):
                 walk_or_raise(rel, f"factory calls of {fmt(node, leaves)}", node)
                 check_noops(rel, fmt(node, leaves), env, pick=sum(map(ord, fmt(node, leaves))) % 997)
                 stats.c["trees_walked"] += 1
-            cross_engine_requests(prog, rels, leaves, stats)
+            cross_engine_requests(prog, rels, leaves, stats, env.engines)
             if id(prog) in rels:
                 proc = make_processor(env)
                 try:
